@@ -760,6 +760,11 @@ def check(program, rep):
     rep.assume("_start_address/_end_address are only written by __init__ "
                "(checked: R0) so start <= end is a class invariant")
     _check_fields_only_written_in_init(program, rep)
+    # the slips that are visible wherever they occur (NAMELINK, FALSY, STALE,
+    # NOEFFECT, SLIPS - DESIGN.md 9.13-9.15), over the property's modules
+    from .. import namelink as _nl
+    rep.guard("C13-R7", _nl.rule, program, rep, "C13-R7",
+              ['rig.machine_control.machine_controller', 'rig.machine_control.utils'], floor=0)
     return finish(rep, program, EXPLANATION, NOT_DECIDED,
                   trusted=["Python slice-length semantics as axiomatised in "
                            "dataflow._slice_len_axioms"])
